@@ -8,6 +8,8 @@ import (
 	_ "verifharness/checks/c08"
 	_ "verifharness/checks/c20"
 	_ "verifharness/checks/c21"
+	_ "verifharness/checks/c25"
+	_ "verifharness/checks/c30"
 	_ "verifharness/roles"
 )
 
